@@ -78,3 +78,16 @@ Theorem C10_the_code_gate :
    (cond = None \/ exists c, cond = Some c /\ (blank c = true \/ exists t, ev c = EVal t /\ str2bool t = true))).
 Proof. intros. split; [apply tie_action_can_trigger | apply code_gate]. Qed.
 Print Assumptions C10_the_code_gate.
+
+(* one hit as the handler codes it (`if ctx.can_trigger() and ctx.acquire(): ctx.process()`) over the translated
+   ActionContext.can_trigger, whatever the limiter answers and whatever acquiring would record: a hit whose condition is false or
+   fails to evaluate does not reach `acquire`, so the statistics stay exactly as they were (TieHit.code_hit_is_model_step
+   composes this with the translated limiter into Limiter.step) *)
+Theorem C10_the_code_rejected_hit_keeps_the_budget :
+  forall (limits_ok : bool) (acquire : (Z * Z) * bool) (st : Z * Z) cond ts ev,
+  gate cond ev = false ->
+  (if gen_action_can_trigger (fun _ => limits_ok) cond ts ev then acquire else (st, false)) = (st, false).
+Proof.
+  intros limits_ok acquire st cond ts ev G. rewrite tie_action_can_trigger, G, andb_false_r. reflexivity.
+Qed.
+Print Assumptions C10_the_code_rejected_hit_keeps_the_budget.
